@@ -13,6 +13,10 @@ claimed = {
    text="Seeded simulation of call histories on one mode object over SM4 for ECB, CBC, CFB, OFB, CTR, XTS (IEEE and GB/T 17964, tweak and sector forms), BC, OFBNLF and HCTR, on three code paths (real sm4 block with fused assembly, Block-only wrapper = generic composition, Block+batch wrapper = batched Go paths): the simulator decides the partition of the message into calls, SetIV re-synchronisations, XTS continuation calls followed by a unit with any partial tail, and buffer placement (in place, disjoint, larger dst, guard page directly after/before, unaligned); every call is compared with independent textbook models at the same stream position, canaries/guard pages observe out-of-slice access, a one-call decryption of everything encrypted checks inversion, and six tiers (avx2, avx, sse, noaes, aesni1, purego) are compared per run. Sampling, not proof.",
    note="Trusted: harness/model/modes over harness/model/sm4m (anchored on SP 800-38A, IEEE 1619, GB/T 17964 vectors at worker start). Writes into dst beyond len(src) are treated as out-of-slice (crypto/cipher.BlockMode contract). Known finding hctr-tweak-split is reported, not repaired. The batch wrapper hands the assembly exactly one batch per call; behaviour of non-amd64 batch implementations is out of reach.",
    technique="deterministic simulation: seeded call-partition histories on mode objects vs reference models, guard-page fault observation with write-ahead crash attribution, multi-configuration nodes, ddmin replay"),
+ "C10": dict(cat="exploration", design="DESIGN.md section 6 (C10)",
+   text="Seeded simulation of a KGC node, user nodes and key-exchange pairs for SM9: master keys and ephemeral scalars come from the scripted reader, user keys travel from the KGC in serialised form (all key kinds are serialised, parsed, compared), user IDs cover every length mod 64, and signatures, wrapped keys, ciphertexts (XOR/ECB/CBC/CFB/OFB, raw and ASN.1) and the three key-exchange messages travel on a faulty transport (value byte altered, every value byte altered, truncation, other ID / message / hid / recipient, corrupted, zeroed, truncated or dropped key-exchange messages). Oracle without an independent pairing model: GM/T 0044 example transcripts reproduced through the public API, round trips, rejection of every alteration of a value byte, SM3-KDF / MAC / XOR-layout reconstruction by the model over the library's pairing value, key-exchange agreement invariants, and per-run transcript-digest equality across avx2 / avx / noadx / purego (portability). Sampling, not proof.",
+   note="Trusted: the library's own pairing and group arithmetic inside the oracle (no independent pairing model; stated in DESIGN.md section 4), harness SM3 model. Structure bytes and the unauthenticated ASN.1 mode field are only required not to panic / not to yield a different plaintext.",
+   technique="deterministic simulation: multi-party (KGC, users, key-exchange pairs) runs with scripted randomness on a faulty transport; known-answer transcripts, KDF/MAC model, cross-configuration transcript equality; ddmin replay"),
  "C11": dict(cat="exploration", design="DESIGN.md section 6 (C11)",
    text="Seeded simulation of histories on one seekable ZUC cipher object (ZUC-128, ZUC-256, 128-EEA3; default and explicit state-bucket sizes 0..1024; sequential and positioned XOR calls forwards and backwards across rounds, words and buckets; in-place, larger-dst and guard-page buffers) and one MAC object (128-EIA3, ZUC-256 MAC with 32/64/128-bit tags; write splits, Sum, Finish with every bit-length class, Reset, abandon-and-reuse), each call compared with bit-serial models at absolute positions; five tiers compared per run. Sampling, not proof.",
    note="Trusted: harness/model/zucm (anchored on 3GPP and ZUC-256 vectors at worker start). Known finding zuc256-mac-tail (64/128-bit tags, more than 32 bits after the last 128-bit block) is reported, not repaired, and recognised only by exact equality with a model carrying precisely that deviation.",
